@@ -181,7 +181,7 @@ static void check_tree(int r, unsigned flags) {
             else aws_json_value_destroy(v);
         }
     }
-    static uint8_t text[1 << 14];
+    static uint8_t text[1 << 16];
     for (int style = 0; style < 3 && !r_failed && !(flags & CT_NO_TEXT); ++style) {
         if (style && (flags & CT_ONE_STYLE)) break;
         struct jw w = {text, 0, sizeof(text), style};
@@ -702,6 +702,65 @@ static void deep_eval(uint64_t idx, void *ctx) {
     }
 }
 
+
+/* ================================================================== section longstr ====================== */
+/* strings and member names around and beyond the serialiser's buffer sizes (256 bytes initially, doubling): a single
+ * string longer than the current print buffer forces a growth driven by the pending write, not by the buffer length
+ * (added after a seeded change in cJSON's ensure() - growth by 2 x current length - was out of reach of the <= 3 symbol
+ * strings).  roles: 0 bare string, 1 {"p":<200 bytes>,"k":s}, 2 {s:true} (long member name), 3 [<300 bytes>, s, "z"];
+ * pattern 0 plain ASCII, 1 every 5th byte needs an escape (output longer than input). */
+static const int LONG_RANGES[][2] = {{0, 40}, {230, 290}, {490, 540}, {750, 775}, {1000, 1050}, {2030, 2070}, {4080, 4110}};
+static int long_len_at(uint64_t k) {
+    for (size_t r = 0; r < sizeof(LONG_RANGES) / sizeof(LONG_RANGES[0]); ++r) {
+        uint64_t n = (uint64_t)(LONG_RANGES[r][1] - LONG_RANGES[r][0] + 1);
+        if (k < n) return LONG_RANGES[r][0] + (int)k;
+        k -= n;
+    }
+    return -1;
+}
+static uint64_t long_nlen(void) {
+    uint64_t t = 0;
+    for (size_t r = 0; r < sizeof(LONG_RANGES) / sizeof(LONG_RANGES[0]); ++r) t += (uint64_t)(LONG_RANGES[r][1] - LONG_RANGES[r][0] + 1);
+    return t;
+}
+static uint64_t longstr_total(void) { return long_nlen() * 4 * 2; }
+static void longstr_eval(uint64_t idx, void *ctx) {
+    (void)ctx;
+    BEE_ITEM(idx);
+    item_begin();
+    uint64_t x = idx;
+    unsigned pat = bee_digit(&x, 2), role = bee_digit(&x, 4);
+    int n = long_len_at(x);
+    if (n < 0) return;
+    static uint8_t buf[9000], pre[400];
+    for (int i = 0; i < n; ++i) buf[i] = (uint8_t)((pat && i % 5 == 4) ? (i % 10 == 4 ? '"' : 0x0A) : ('a' + (i * 7 + n) % 26));
+    for (int i = 0; i < 300; ++i) pre[i] = (uint8_t)('A' + i % 26);
+    V_COUNT("evaluations", 1);
+    if (n > 250) V_COUNT("nontrivial", 1);
+    int root;
+    if (role == 0) {
+        root = r_str(buf, (size_t)n);
+    } else if (role == 1) {
+        root = r_new(R_OBJ);
+        int p1 = r_str(pre, 200), v = r_str(buf, (size_t)n);
+        r_setkey(p1, "p", 1);
+        r_setkey(v, "k", 1);
+        r_append(root, p1);
+        r_append(root, v);
+    } else if (role == 2) {
+        root = r_new(R_OBJ);
+        int t = r_new(R_TRUE);
+        r_setkey(t, buf, (size_t)n);
+        r_append(root, t);
+    } else {
+        root = r_new(R_ARR);
+        r_append(root, r_str(pre, 300));
+        r_append(root, r_str(buf, (size_t)n));
+        r_append(root, r_str("z", 1));
+    }
+    check_tree(root, 0);
+}
+
 /* ================================================================== section cmpcost ====================== */
 /* "a duplicate compares equal to its original" must also be *answered*: cJSON_Compare walks every member of an object
  * twice (a against b, then b against a; source/external/cJSON.c:3109-3138), recursively, so n nested objects cost 2^n
@@ -772,6 +831,7 @@ int main(int argc, char **argv) {
     bee_register("uescape", uescape_total, uescape_eval, 20);
     bee_register("surrogate", surrogate_total, surrogate_eval, 20);
     bee_register("tree", tree_total, tree_eval, 20);
+    bee_register("longstr", longstr_total, longstr_eval, 30);
     bee_register("deep", deep_total, deep_eval, 60);
     bee_register("cmpcost", cmpcost_total, cmpcost_eval, 120);
     return bee_main(argc, argv);
